@@ -65,7 +65,8 @@ def constants_text(NX, sp, fix, trunc='all'):
         S(sp['fmt']))
     s += 'BodyCodes = %s SplitSet = %s ExtSet = %s TrailerSet = %s TruncMode = "%s" SCloseSet = %s\n' % (
         S(sp['bodies']), S(sp['split']), S(sp['ext']), S(sp['tr']), trunc, S(sp['sclose']))
-    s += 'FixTE = %s FixNoBody = %s Fix1xx = %s FixBadCL = %s FixTrailer = %s\n' % tuple(str(bool(f)).upper() for f in fix)
+    s += ('FixTE = %s FixNoBody = %s Fix1xx = %s FixBadCL = %s FixTrailer = %s FixHold = %s\n'
+          % tuple(str(bool(f)).upper() for f in fix))
     return s
 
 
@@ -96,6 +97,7 @@ def probe_variant():
         out = [e for e in r.ev if e['e'] == 'done'][0]
         dl = b''.join(e['data'] for e in r.ev if e['e'] == 'dl')
         stalled = any(e['e'] == 'stall' for e in r.ev)
+        one.rd = b''.join(e['data'] for e in r.ev if e['e'] == 'rd')
         return out['out'], dl, stalled
     base = dict(method='GET', status=200, te='none', cl='none', fmt='crlf', content=b'abc')
     o, dl, st = one(dict(base, te='Chunked'))
@@ -104,6 +106,7 @@ def probe_variant():
     fix_nb = (o == 'ok' and not st)
     o, dl, st = one(dict(base, interim=1, cl='exact'))
     fix_1xx = (o == 'ok' and dl == b'abc')
+    fix_hold = fix_1xx and not one.rd.startswith(b'HTTP/1.1 100')
     o, dl, st = one(dict(base, cl='nonnum'))
     fix_cl = (o != 'ok')
     cm = M.build_cmsg(dict(base, te='chunked', tr=True))
@@ -112,7 +115,7 @@ def probe_variant():
     r = Run([{'cm': cm, 'pieces': [cm['trunc']]}])
     r.execute()
     fix_tr = [e for e in r.ev if e['e'] == 'done'][0]['out'] != 'other_error'
-    return (fix_te, fix_nb, fix_1xx, fix_cl, fix_tr)
+    return (fix_te, fix_nb, fix_1xx, fix_cl, fix_tr, fix_hold)
 
 
 # ------------------------------------------------------------------ (a) TLC-generated behaviours
@@ -232,7 +235,7 @@ def signature(pid, clause, exchanges, x, dones, fix):
         if j >= 1 and dones.get(j, {}).get('closed', True):
             break
     sig = {'clause': clause}
-    sig.update(M.plain_class(exchanges[x - 1]['cm']))
+    sig.update(M.msg_class(exchanges[x - 1]['cm'], fix, weak=True) or M.plain_class(exchanges[x - 1]['cm']))
     return sig
 
 
@@ -285,7 +288,7 @@ def run(chk):
     warc = pid == 'C04'
     rng = random.Random(chk.seed * 7919 + (4 if warc else 8))
     fix = probe_variant()
-    chk.extra['code_variant'] = dict(zip(['FixTE', 'FixNoBody', 'Fix1xx', 'FixBadCL', 'FixTrailer'], fix))
+    chk.extra['code_variant'] = dict(zip(['FixTE', 'FixNoBody', 'Fix1xx', 'FixBadCL', 'FixTrailer', 'FixHold'], fix))
     invs = C04_INVS if warc else C08_INVS
 
     # ---------------- 1. design checks (started now, collected at the end; they run beside the executions)
